@@ -88,6 +88,9 @@ func FamilyOf(prop string, seed, i uint64) string {
 	if seed&RaceSeedBit != 0 {
 		return "race"
 	}
+	if prop == "C15" && i%8 == 7 && i%40000 != 39999 {
+		return "reconn" // caller-chosen identifiers through the retrying client
+	}
 	if prop == "C15" && i%40000 == 39999 {
 		return "idcycle" // one request held while 65 540 more are acknowledged one by one
 	}
@@ -266,6 +269,9 @@ func genReconn(r *Rng, prop string) *Scenario {
 			op.Token = fmt.Sprintf("m%d", tok)
 			op.Retain = r.chance(0.2)
 			op.DupIn = r.chance(0.08) // a reused / forwarded message struct
+			if prop == "C15" && op.QoS > 0 && r.chance(0.5) {
+				op.PresetID = uint16(r.between(50000, 65000)) // the caller's own identifier
+			}
 		case 1:
 			op.Kind = "subscribe"
 			n := 1
